@@ -12,7 +12,7 @@ PROPERTY = 'C02'
 RULE = ('every mnemonic of the assembler vocabulary (x86mndb.mnemo_lookup with the # templates expanded: ~660 names) x ~70 operand-shape templates '
         '(reg8/16/32, segment/control/debug/mm/xmm/st registers, 25 memory-operand classes with every size keyword, symbols) x the boundary immediates '
         '-129,-128,-1,0,1,127,128,255,256,32767,32768,65535,65536,2^31-1,2^31,2^32-1,2^32,-2^31,-2^31-1 for 10 immediate shapes; Intel syntax directly, '
-        'AT&T syntax as the reference spelling (objdump -M att of GNU as\'s encoding) plus a direct AT&T generator for ALU immediates. All candidates of '
+        'AT&T syntax as the reference spelling (objdump -M att of GNU as\'s encoding) plus a direct AT&T generator for ALU immediates, plus a memory-operand grid (base x index incl. base == index x scale x displacement, 3 templates quick / 8 thorough). All candidates of '
         'each accepted line are examined. A case = (syntax, line); non-trivial = miasmX returned >= 1 candidate; classes = (syntax, mnemonic, shape, immediate class).')
 ASSUMPTIONS = ['GNU as 2.40 (--32) defines what a line denotes and whether an immediate fits (error or "shortened" warning = does not fit); objdump 2.40 reads the candidates',
                'when GNU as rejects a line miasmX accepts, only self-consistency is checked (one full-length instruction, all candidates with the same reference text)']
@@ -28,6 +28,10 @@ def SSE_NAMES():
         from miasmx.arch import ia32_arch as A
         _sse.append(set(A.mnemo_mmx_hash.keys()) | set(['movhlps', 'movlhps', 'cvttpd2dq', 'pmovmskb', 'movq']))
     return _sse[0]
+
+
+ARITH_SHAPES = ('r32,i', 'r16,i', 'r8,i', 'eax,i', 'ax,i', 'al,i', 'm32,i', 'm16,i', 'm8,i')
+ARITH_MNEMONICS = ('mov', 'add', 'adc', 'sub', 'sbb', 'and', 'or', 'xor', 'cmp', 'test')
 
 
 def width_of_shape(shape):
@@ -99,6 +103,16 @@ def run_batch(sh, batch, syntax):
             sh.violation('%s/not-one-insn/w%d/%s' % (keybase, w, icls), '%r: candidate %s is read by objdump as %d bytes "%s"' % (line, b.hex(), d[0], d[1]), wit)
             continue
         texts = [x86ref.sort_unscaled_pair(x86ref.norm_ref_text(d[1])) for b, d in items]
+        # arithmetic clause, independent of the reference assembler (GNU as --32 itself wraps such values silently): a value
+        # outside [-2^(w-1), 2^w) fits no immediate form of a w-bit operation, so no candidate may exist
+        if v is not None and shape in ARITH_SHAPES and not (-(1 << (w - 1)) <= v < (1 << w)) and (mn in ARITH_MNEMONICS) and re.search(r'(?<![\w])\$?%d\b' % v if v >= 0 else r'\$?-%d\b' % -v, line):
+            wrapped = ((v + (1 << 31)) % (1 << 32)) - (1 << 31)
+            if -(1 << (w - 1)) <= wrapped < (1 << w):
+                key = '%s/immediate-outside-the-operand-width-accepted-after-wrapping-mod-2^32/w%d/%s' % (syntax, w, icls)
+            else:
+                key = '%s/imm-trunc/w%d/%s' % (keybase, w, icls)
+            sh.violation(key, '%r: %d does not fit %d bits, yet candidates %s = "%s" are returned' % (line, v, w, [b.hex() for b in c[:3]], texts[0]), wit)
+            continue
         refuses = (not g) or 'shortened' in msg or 'truncated' in msg
         fits_err = (not g) and re.search(r'out of range|too large|overflow|exceeds|bad expression|too big', msg or '') is not None
         if g and not refuses:
